@@ -462,6 +462,8 @@ def families(tier, seed):
 
 def main():
     chk = Check("C02", "other")
+    # who may write the history of a delayed model: the adaptive DDE solvers change it only through DDEHistory.update, unconditionally per accepted step
+    chk.run_frames()
     chk.run_contracts("contracts.c02", fallback={"*": lambda: []})
     driver.run_family(
         chk, "backends-vs-spec", families(chk.tier, chk.seed), dispatch, site="C02/backends",
